@@ -144,23 +144,33 @@ Proof.
   - apply elem_of_list_singleton in Ho as ->. cbn in Hx. apply elem_of_list_singleton in Hx. auto.
 Qed.
 
-Lemma alpha_cids_typed Δ c x :
-  cfg_typed D F teq Δ c -> CoreCfg c -> x ∈ cfg_cids (α c) -> is_Some (chans c !! x).
+Lemma alpha_cids_typed_gen Δ c x :
+  cfg_typed D F teq Δ c ->
+  (forall k st m, chans c !! k = Some st -> ch_buf st = Some m -> m_rule m = RFWD -> exists n, m_provs m = [n]) ->
+  (forall q pr, procs c !! q = Some pr -> exists n, pr_provs pr = [n]) ->
+  x ∈ cfg_cids (α c) -> is_Some (chans c !! x).
 Proof.
-  intros Hc Hcc. unfold cfg_cids, α. rewrite elem_of_flat_map. intros (o & Ho & Hx).
+  intros Hc Hcc Hps. unfold cfg_cids, α. rewrite elem_of_flat_map. intros (o & Ho & Hx).
   apply elem_of_app in Ho as [Ho|Ho].
   - unfold procs_objs in Ho. apply elem_of_flat_map in Ho as ([q pr] & Hq & Ho). cbn in Ho.
     apply elem_of_map_to_list in Hq. destruct (ct_procs _ _ _ _ _ Hc q pr Hq) as (s & rs & _ & Hprov & Hty).
-    unfold proc_obj in Ho. destruct (pr_provs pr) as [|n [|]] eqn:Hpv; try (by apply elem_of_nil in Ho).
+    destruct (Hps q pr Hq) as [n Hpv]. unfold proc_obj, pobj in Ho. rewrite Hpv in Ho. cbn in Ho.
     destruct (chan n) as [a|] eqn:Hn; [|by apply elem_of_nil in Ho]. apply elem_of_list_singleton in Ho as ->.
     apply (ct_dom _ _ _ _ _ Hc).
     apply obj_cids_obj in Hx as [->|Hx]; [|by eapply typed_cids].
-    apply Forall_cons_iff in Hprov as [(c0 & t' & Hc0 & Ht' & _) _]. assert (c0 = a) by congruence. subst. eauto.
+    rewrite Hpv in Hprov. apply Forall_cons_iff in Hprov as [(c0 & t' & Hc0 & Ht' & _) _]. assert (c0 = a) by congruence. subst. eauto.
   - unfold chans_objs in Ho. apply elem_of_flat_map in Ho as ([k st] & Hk & Ho). cbn in Ho.
     apply elem_of_map_to_list in Hk. unfold chan_obj in Ho. destruct (ch_buf st) as [m|] eqn:Hb; [|by apply elem_of_nil in Ho].
-    destruct (cc_msgs c Hcc k st m Hk Hb) as [_ Hfw].
-    destruct (msg_obj_typed_cids Δ k m o x (ct_msgs _ _ _ _ _ Hc k st m Hk Hb) Hfw Ho Hx) as [->|Hd]; [eauto|].
+    destruct (msg_obj_typed_cids Δ k m o x (ct_msgs _ _ _ _ _ Hc k st m Hk Hb) (Hcc k st m Hk Hb) Ho Hx) as [->|Hd]; [eauto|].
     by apply (ct_dom _ _ _ _ _ Hc).
+Qed.
+
+Lemma alpha_cids_typed Δ c x :
+  cfg_typed D F teq Δ c -> CoreCfg c -> x ∈ cfg_cids (α c) -> is_Some (chans c !! x).
+Proof.
+  intros Hc Hcc. apply (alpha_cids_typed_gen Δ c x Hc).
+  - intros k st m Hk Hb. by destruct (cc_msgs c Hcc k st m Hk Hb).
+  - intros q pr Hq. by destruct (cc_procs c Hcc q pr Hq).
 Qed.
 
 Lemma core_head b : core_form b = true -> head_lin b.
@@ -253,6 +263,7 @@ Proof.
   destruct (refines_sax_core _ _ _ (teq_rt_laws _) (proj1 Hst) HFc HFa _ _ _ HI0 Hrun) as (ls & Hs & Hl).
   exists (α (res_config r)). rewrite Hl. change (labels (init_config p')) with (@nil string). cbn.
   eapply sax_steps_perm; [symmetry; apply alpha_init|done].
+  intros q pr Hq. by destruct (cc_procs _ (inv_core _ _ _ _ HI0) q pr Hq).
 Qed.
 
 (* programs that come out of the parser: prog_syn_ok is a theorem *)
@@ -368,6 +379,7 @@ Proof.
               (fun _ => bufs_empty_init p') Hrun) as (ls & Hs & Hl).
   exists (α (res_config r)). rewrite Hl. change (labels (init_config p')) with (@nil string). cbn.
   eapply sax_steps_perm; [symmetry; apply alpha_init|done].
+  intros q pr Hq. by destruct (cc_procs _ (inv_core _ _ _ _ HI0) q pr Hq).
 Qed.
 
 Theorem prints_admitted_parsed_md md txt p p' :
